@@ -387,6 +387,25 @@ func c03Batch(run *evid.Run, sys *rmon.Sys, r *rand.Rand, key, mode string, b *b
 				run.Add("forged_zero_fired", fired)
 			}
 		}
+		// the same alias, but answered for only ONE of the decomposition calls of this value (a circuit that
+		// decomposes a value twice must not check one copy and hash the other)
+		if alt := new(big.Int).Add(v, ref.R); alt.Cmp(top) < 0 {
+			vals := append([]*big.Int{}, b.vals...)
+			vals[i] = alt
+			for nth := 0; nth < 3; nth++ {
+				fired := 0
+				h := rmon.Hints{rmon.NBitsID: rmon.NBitsNth(v, 256, nth, func(_ *big.Int, nn int) []*big.Int { return rmon.BitsOf(alt, nn) }, &fired)}
+				res := sys.Solve(b.assignment(ref.HashToField(b.pack(b.idx, vals))), h)
+				if fired == 0 {
+					break // there is no such call
+				}
+				run.Add("forged_single_call_fired", 1)
+				if res.Accepted {
+					run.Violate(fmt.Sprintf("%s/Ncall%d-%s", key, nth, n), fmt.Sprintf("circuit ACCEPTS the hash of the alias v+r of %s when only decomposition call #%d of that value is forged (checked and hashed bits are different wires)", n, nth), map[string]any{"batch": sample, "field": n, "call": nth})
+				}
+				run.Case(mode+"/forged/single-call-v+r", true, fmt.Sprintf("%s/%s/%d", key, n, nth), res.Accepted, map[string]any{"field": n, "call": nth})
+			}
+		}
 		// bits of a different value (recomposition must catch it)
 		wrong := new(big.Int).Xor(v, big.NewInt(1))
 		vals := append([]*big.Int{}, b.vals...)
